@@ -284,6 +284,28 @@ Theorem C06_jks : forall secret cert_info enc_name desc magic version ebs mac,
 Proof. exact keystore_file_encode. Qed.
 Print Assumptions C06_jks.
 
+(* Nothing is outside: conversely, EVERY stream of octets that InsecureParse accepts is the writing of the entries
+   it returns - jks_encode of entries that meet jentry_ok, with either magic, any version field, any 20-octet
+   digest and, for a SecretKeyEntry, the octets the sealed-object reader consumed.  So the writer of C06_jks can
+   represent everything the reader accepts (JCEKS secret-key entries under either magic, chains of length 0,
+   aliases of any octets up to 65535, every 64-bit timestamp, unknown entry types without a body) and the
+   quantifier of C06_jks ranges over all accepted keystores. *)
+Theorem C06_jks_complete : forall secret data es, bytes_ok data = true -> jks_parse secret data = Ok es ->
+  exists magic version ebs mac,
+    magic_ok magic /\ version < 4294967296 /\ N.of_nat (length ebs) < 4294967296 /\ length mac = 20%nat /\
+    forallb (fun eb => jentry_ok (fst eb)) ebs = true /\ map fst ebs = es /\
+    data = jks_encode magic version ebs mac.
+Proof. exact jks_parse_complete. Qed.
+Print Assumptions C06_jks_complete.
+
+(* and every accepted keystore is reported with one child per entry of the stream, in stream order *)
+Theorem C06_jks_accepted : forall secret cert_info enc_name desc data es,
+  jks_parse secret data = Ok es ->
+  (forall e, In e es -> certs_calm cert_info (je_certs e)) ->
+  keystore_file cert_info enc_name true secret desc data = Ok (Info desc [] (map (entry_child cert_info enc_name) es)).
+Proof. exact keystore_file_accepted. Qed.
+Print Assumptions C06_jks_accepted.
+
 (* inside an entry: the children are the chain, complete and in order, then the key; a certificate
    that parses is described exactly as parseCertificate describes it on its own *)
 Theorem C06_jks_chain : forall cert_info enc_name e,
